@@ -839,7 +839,10 @@ impl<H: Host> ZXController<H> {
         ensures final(self).border_color == color,
             // C09: the border device is told the colour and the in-frame time of the change
             final(self).border.calls() == old(self).border.calls().push(BorderCall::Set(clocks, color)),
-            final(self).screen == old(self).screen,
+            final(self).screen == old(self).screen, final(self).tape == old(self).tape,
+            final(self).debug_interface == old(self).debug_interface, final(self).events == old(self).events,
+            final(self).last_emulation_error == old(self).last_emulation_error,
+            final(self).caps_shift_modifier_mask == old(self).caps_shift_modifier_mask,
             final(self).machine == old(self).machine, final(self).memory == old(self).memory,
             final(self).mixer == old(self).mixer, final(self).io_extender == old(self).io_extender,
             final(self).frame_clocks == old(self).frame_clocks, final(self).passed_frames == old(self).passed_frames,
@@ -849,6 +852,29 @@ impl<H: Host> ZXController<H> {
             final(self).kempston == old(self).kempston, final(self).mouse == old(self).mouse,
             final(self).keyboard == old(self).keyboard, final(self).keyboard_extended == old(self).keyboard_extended,
             final(self).keyboard_sinclair == old(self).keyboard_sinclair,
+//@ end
+
+//@ fn rustzx-core/src/zx/controller.rs impl <H:Host>ZXController<H>::write_ula_port props C07 C09 C19 C14
+//@ sig
+        // the ULA's reaction to a byte written to port 0xFE, without any bus time
+        ensures final(self).border_color == ZXColor::of_bits(data & 0x07),
+            final(self).border.calls() == old(self).border.calls().push(BorderCall::Set(old(self).frame_clocks, ZXColor::of_bits(data & 0x07))),
+            final(self).mixer.beeper.mic == (data & 0x08 != 0), final(self).mixer.beeper.ear == (data & 0x10 != 0),
+            final(self).mixer.ay == old(self).mixer.ay,
+            final(self).screen == old(self).screen, final(self).tape == old(self).tape,
+            final(self).machine == old(self).machine, final(self).memory == old(self).memory,
+            final(self).io_extender == old(self).io_extender, final(self).debug_interface == old(self).debug_interface,
+            final(self).frame_clocks == old(self).frame_clocks, final(self).passed_frames == old(self).passed_frames,
+            final(self).paging_enabled == old(self).paging_enabled,
+            final(self).current_port_7ffd == old(self).current_port_7ffd,
+            final(self).screen_bank == old(self).screen_bank,
+            final(self).kempston == old(self).kempston, final(self).mouse == old(self).mouse,
+            final(self).keyboard == old(self).keyboard, final(self).keyboard_extended == old(self).keyboard_extended,
+            final(self).keyboard_sinclair == old(self).keyboard_sinclair,
+            final(self).events == old(self).events, final(self).last_emulation_error == old(self).last_emulation_error,
+            final(self).caps_shift_modifier_mask == old(self).caps_shift_modifier_mask,
+//@ at 0 //
+        proof { assert(data & 0x07 <= 7) by(bit_vector); }
 //@ end
 
 //@ fn rustzx-core/src/zx/controller.rs impl <H:Host>ZXController<H>::select_ay_reg props C07
@@ -932,9 +958,8 @@ impl<H: Host> ZXController<H> {
                 ensures vx_r == e.claims(port),
 //@ at 0 //
         broadcast use group_call_logs;
-//@ at 1 /self\.set_border_color/
+//@ at 1 /self\.write_ula_port\(data\)/
             proof {
-                assert(data & 0x07 <= 7) by(bit_vector);
                 assert(at_time(self.passed_frames as int, frame_len(self.machine), self.frame_clocks) == self.total());
             }
 //@ after 1 /self\.write_7ffd\(data\);/
